@@ -47,10 +47,12 @@ func universe() []ser {
 	return u
 }
 
+// the first series of every batch carries the value 0 (a counter that nets to nothing, a gauge at 0, a 0 ms timer): it is
+// a member of the batch like any other and has to land in its shard
 func build(batch []ser) *gostatsd.MetricMap {
 	mm := gostatsd.NewMetricMap(false)
 	for i, s := range batch {
-		mm.Receive(&gostatsd.Metric{Name: s.Name, Tags: append(gostatsd.Tags{}, s.Tags...), Source: gostatsd.Source(s.Source), Type: s.Type, Value: float64(i + 1), StringValue: fmt.Sprint("m", i), Rate: 1, Timestamp: gostatsd.Nanotime(100 + i)})
+		mm.Receive(&gostatsd.Metric{Name: s.Name, Tags: append(gostatsd.Tags{}, s.Tags...), Source: gostatsd.Source(s.Source), Type: s.Type, Value: float64(i), StringValue: fmt.Sprint("m", i), Rate: 1, Timestamp: gostatsd.Nanotime(100 + i)})
 	}
 	return mm
 }
